@@ -87,6 +87,25 @@ let table send disc =
   done;
   Buffer.contents b
 
+let macro_table send =
+  let b = Buffer.create 64 in
+  Buffer.add_string b "m:";
+  let last = ref "" and n = ref 0 in
+  let flush () =
+    if !n > 0 then begin
+      Buffer.add_string b !last;
+      if !n > 1 then Buffer.add_string b ("*" ^ string_of_int !n);
+      Buffer.add_char b ','
+    end in
+  for l = 0 to 6 do
+    for c = 0 to 6 do
+      let s = deliveries (send (nat_of_int l, nat_of_int c)) in
+      if s = !last then incr n else begin flush (); last := s; n := 1 end
+    done
+  done;
+  flush ();
+  Buffer.contents b
+
 let policy_of = function "i" -> PIgnore | "e" -> PException | _ -> PReplace
 
 let run_case ops =
@@ -108,19 +127,24 @@ let run_case ops =
         | 'L' -> do_step (ONewLog (cstring a))
         | 'D' ->
             let (l, d) = split2 '/' a in
-            do_step (OAddDest (cstring l, cstring (match d with Some d -> d | None -> "")))
+            let d = cstring (match d with Some d -> d | None -> "") in
+            if l <> "" && l.[0] = '#'
+            then do_step (OAddDestId (n_of_int (int_of_string (Stdlib.String.sub l 1 (Stdlib.String.length l - 1))), d))
+            else do_step (OAddDest (cstring l, d))
         | 'F' ->
             let (tgt, set) = split2 ':' a in
             let set = match set with Some s -> s | None -> "" in
-            let tg = match split2 '/' tgt with
-              | (l, None) -> TgLog (cstring l)
-              | (l, Some d) -> TgDest (cstring l, cstring d) in
             let s = match set.[0] with
               | 'c' -> SClasses (cstring (unhex (String.sub set 1 (String.length set - 1))))
               | 'M' -> SMax (digit set 1)
               | 'm' -> SMin (digit set 1)
               | _ -> SLevel (digit set 1) in
-            do_step (OSet (tg, s))
+            (match split2 '/' tgt with
+             | (l, d) when l <> "" && l.[0] = '#' ->
+                 let ids = n_of_int (int_of_string (Stdlib.String.sub l 1 (Stdlib.String.length l - 1))) in
+                 do_step (OSetId (ids, (match d with Some d -> Some (cstring d) | None -> None), s))
+             | (l, None) -> do_step (OSet (TgLog (cstring l), s))
+             | (l, Some d) -> do_step (OSet (TgDest (cstring l, cstring d), s)))
         | 'S' ->
             let (ids, m) = split2 ':' a in
             let m = match m with Some m -> m | None -> "00" in
@@ -143,6 +167,8 @@ let run_case ops =
         | 'V' ->
             let name = cstring a in
             table (fun m -> log_name !w.logs name m) (fun l -> discard_name !w.logs name l)
+        | 'M' -> let name = cstring a in macro_table (fun m -> macro_name !w.logs name m)
+        | 'I' -> let ids = n_of_int (int_of_string a) in macro_table (fun m -> macro_ids !w.logs ids m)
         | _ -> "?" in
       let r = if r = "d0" || r = "d1" then begin
           Buffer.add_string raw (" q=" ^ String.sub r 1 1); "q" end else r in
